@@ -300,6 +300,12 @@ func DeleteAndCheck(l *Loaded, pkgPath string, reported map[types.Object]bool, i
 						n.Lhs[i] = blank(id)
 						n.Tok = token.ASSIGN
 						res.BlankedWrites++
+						// `_ = nil` is not valid Go; the stored value does not matter any more
+						if len(n.Lhs) == len(n.Rhs) {
+							if tv, ok := info.Types[n.Rhs[i]]; ok && tv.IsNil() {
+								n.Rhs[i] = &ast.BasicLit{ValuePos: n.Rhs[i].Pos(), Kind: token.INT, Value: "0"}
+							}
+						}
 					}
 				}
 			case *ast.IncDecStmt:
